@@ -7,7 +7,8 @@ import sys
 
 finding, prop, what = sys.argv[1:4]
 how = sys.argv[4] if len(sys.argv) > 4 else ""
-commit = subprocess.run(["git", "-C", "/repo", "log", "--format=%h", "-1"], stdout=subprocess.PIPE, universal_newlines=True).stdout.strip()
+import os
+commit = os.environ.get("FIX_COMMIT") or subprocess.run(["git", "-C", "/repo", "log", "--format=%h", "-1"], stdout=subprocess.PIPE, universal_newlines=True).stdout.strip()
 path = "/verif/known_findings.json"
 known = json.load(open(path))
 if any(f["id"] == finding for f in known["findings"]):
